@@ -577,19 +577,46 @@ Record obs := {
   o_ok : bool; o_err : N;
   o_diff : list string;      (* contracts whose state changed (one entry per changed key) *)
   o_acct : N;                (* number of account-level changes other than the sender's nonce *)
-  o_mem : bool; o_cache : bool; o_crash : bool }.
+  o_mem : bool; o_cache : bool; o_crash : bool;
+  o_foreign : list (string * string) }.
+  (* (contract, key prefix) of every EXISTING record changed or deleted whose key names - in the canonical spelling the
+     contracts use for their own records - another party than the caller, or an object of another party *)
 
 Definition unchanged (o : obs) : bool :=
   match o_diff o with [] => (o_acct o =? 0)%N && negb (o_mem o) && negb (o_cache o) && negb (o_crash o) | _ => false end.
 
-(** the property on one observed call: c = intended class, x = caller *)
-Definition P_call (c : cls) (x : caller) (o : obs) : bool :=
+(** records of other parties that a method open to everybody may change by design (a score, an evaluation) *)
+Definition open_foreign : list (string * string * (string * string)) :=
+  [("ServiceManager", "EvaluateService", ("ServiceMgrContractAddr", "service-"));
+   ("DappManager", "EvaluateDapp", ("DappMgrContractAddr", "dapp-"))].
+Definition foreign_ok (cm : string * string) (e : string * string) : bool :=
+  existsb (fun a : string * string * (string * string) =>
+             String.eqb (fst (fst a)) (fst cm) && String.eqb (snd (fst a)) (snd cm) &&
+             String.eqb (fst (snd a)) (fst e) && String.eqb (snd (snd a)) (snd e)) open_foreign.
+
+(** an operation reserved to a chain's admin / the object itself may, through the cascades, pause, restore or end
+    proposals that OTHERS submitted about that object: proposal records are keyed by their sponsor *)
+Definition foreign_ok_priv (cm : string * string) (e : string * string) : bool :=
+  foreign_ok cm e || (String.eqb (fst e) "GovernanceContractAddr" && String.eqb (snd e) "proposal-").
+
+(** the property on one observed call: cm = (contract, method), c = intended class, x = caller *)
+Definition P_call_cm (cm : string * string) (c : cls) (x : caller) (o : obs) : bool :=
   if negb (allowed c x) then negb (o_ok o) && unchanged o
   else match c with
        | Query => unchanged o
        | OpenWrite => negb (o_crash o) && negb (o_mem o) && forallb (fun d => negb (mem_str d protected)) (o_diff o)
-       | _ => negb (o_crash o)
+                      && forallb (foreign_ok cm) (o_foreign o)
+       | _ => negb (o_crash o) && (x_admin x || forallb (foreign_ok_priv cm) (o_foreign o))
        end.
+Definition P_call (c : cls) (x : caller) (o : obs) : bool := P_call_cm ("", "") c x o.
+
+(** how far a listed finding explains an observation: the entry points listed as "succeeds without effect" explain
+    only that; the others only changes of the records they are known to touch *)
+Definition finding_explains (n : N) (o : obs) : bool :=
+  if (n =? 13)%N then unchanged o
+  else if (n =? 10)%N || (n =? 11)%N then forallb (fun d => String.eqb d "InterchainContractAddr") (o_diff o) && negb (o_crash o) && negb (o_mem o)
+  else if (n =? 15)%N then forallb (fun d => String.eqb d "InterBrokerContractAddr") (o_diff o) && negb (o_crash o) && negb (o_mem o)
+  else true.
 
 (** which listed defect explains a failed [P_call] (0 = none) *)
 Definition stub_family (n : string) : N :=
@@ -660,8 +687,31 @@ Definition judge_call (f : cfg) (k : case) : verdict :=
       match class_of m with
       | None => V_domain 1
       | Some c =>
-          if negb (P_call c (c_caller k) (c_obs k)) then V_propfalse (explaining_flag f m)
+          if negb (P_call_cm (c_contract k, c_method k) c (c_caller k) (c_obs k))
+          then V_propfalse (let n := explaining_flag f m in if finding_explains n (c_obs k) then n else 0%N)
           else if existsb (fun f' => admits f' m (c_typed k) (c_caller k) (c_obs k)) (sub_cfgs f m) then V_ok
           else V_mismatch 0
       end
   end.
+
+(** * Account reservations and the spelling of addresses
+    The role contract keeps one reservation record per account under the key occupy-account-<address as spelled>.
+    An address argument is a party together with the spelling the caller chose; spelling 0 is the canonical
+    (checksummed) one, which is the spelling of every record a party got through its own transactions.
+    RegisterAppchain / UpdateAppchain (open to everybody / to a chain's admin) check every listed admin account with
+    CheckOccupiedAccount, reserve them with OccupyAccount, and release them with FreeAccount when the proposal is
+    rejected or withdrawn - all three under the spelling supplied.  [canon] = OccupyAccount / FreeAccount canonicalise
+    the spelling while the check does not (not the case in the code as it is). *)
+Record acct := { ac_who : N; ac_sp : N }.
+Definition acct_eqb (a b : acct) : bool := (ac_who a =? ac_who b)%N && (ac_sp a =? ac_sp b)%N.
+Definition reservations := list (acct * string).
+Definition rget (a : acct) (r : reservations) : option string := alookup acct_eqb a r.
+Definition occ_key (canon : bool) (a : acct) : acct := if canon then {| ac_who := ac_who a; ac_sp := 0 |} else a.
+
+Definition register_res (canon : bool) (c : N) (admins : list acct) (r : reservations) : option reservations :=
+  if negb (existsb (acct_eqb {| ac_who := c; ac_sp := 0 |}) admins) then None            (* the admin list must contain the caller *)
+  else if existsb (fun a => match rget a r with Some _ => true | None => false end) admins then None   (* CheckOccupiedAccount *)
+  else Some (fold_left (fun acc a => aset acct_eqb (occ_key canon a) "appchainAdmin" acc) admins r).
+
+Definition free_res (canon : bool) (admins : list acct) (r : reservations) : reservations :=
+  fold_left (fun acc a => aremove acct_eqb (occ_key canon a) acc) admins r.
